@@ -677,6 +677,51 @@ Proof. vm_compute. reflexivity. Qed.
 Example ex_c06_retried_ok : srun_ok sys_init ex_c06_retried.
 Proof. unfold srun_ok. cbn -[sys_step]. vm_compute. intuition. Qed.
 
+(* (d) a run that ends BEFORE it starts: the worker has accepted the dispatch (fetched the task), the dispatch
+   context is cancelled before the work function is called, the worker reports the context error: LWorkEnd "a"
+   OCanceled with no LWorkStart. Step reports TaskDone(a, context canceled) from its select WITHOUT MarkAsDone;
+   the system comes to rest; the task is left dispatched, which is what c06_ok / c20_ok expect of a cancelled run *)
+Definition ex_canceled_before_start : list slabel :=
+  (firstn 15 cex_c06_prefix ++
+   [ LWorkEnd "a" OCanceled;
+     LStepBegin;
+     LCall CLtue FNone false (RBool false);
+     LCall CTimerCh FNone false RUnit;
+     LStepEnd (STaskDone "a" OCanceled false) false;
+     LStepBegin;
+     LCall CLtue FNone false (RBool false);
+     LCall CTimerCh FNone false RUnit;
+     LDump [rw_a'] rw_now1 true ])%list.
+Definition is_markdone (l : slabel) : bool := match l with LCall (CMarkDone _ _) _ _ _ => true | _ => false end.
+Example ex_canceled_before_start_report :
+  c06_report ex_canceled_before_start = (None, Some (true, true, true), (true, true), true)
+  /\ nth_error ex_canceled_before_start 14 = Some (LStepEnd (SDispatched "a") false)
+  /\ starts_of ex_canceled_before_start = []
+  /\ ends_of ex_canceled_before_start = [("a", OCanceled)]
+  /\ reports_of ex_canceled_before_start = ["a"]
+  /\ existsb is_markdone ex_canceled_before_start = false
+  /\ timer_started_first ex_canceled_before_start = true /\ no_user_hook_fault ex_canceled_before_start = true
+  /\ trace_disciplined ex_canceled_before_start = true
+  /\ omap at_rest_b (srun sys_init ex_canceled_before_start) = Some true
+  /\ omap (fun s => map (fun t => (t_id t, t_state t)) (repo_of s)) (srun sys_init ex_canceled_before_start)
+     = Some [("a", Dispatched)]
+  /\ omap (fun x => map (fun t => (t_id t, t_state t)) (fst (fst x))) (last_dump ex_canceled_before_start)
+     = Some [("a", Dispatched)]
+  /\ (c03_ok ex_canceled_before_start, c04_ok ex_canceled_before_start, c05_ok ex_canceled_before_start,
+      c06_ok ex_canceled_before_start, c20_ok ex_canceled_before_start) = (true, true, true, true, true).
+Proof. vm_compute. repeat split; reflexivity. Qed.
+Example ex_canceled_before_start_ok : srun_ok sys_init ex_canceled_before_start.
+Proof. unfold srun_ok. cbn -[sys_step]. vm_compute. intuition. Qed.
+(* the new transition is as narrow as the code: it needs the acceptance (MarkAsDispatched alone, before the
+   worker's fetch, is not enough), only the outcomes ONotFound / OCanceled can end a run that never started, and
+   the acceptance is used up by it *)
+Example canceled_end_needs_accept :
+  sys_check scfg_fixed hcfg_fixed sys_init (firstn 13 cex_c06_prefix ++ [LWorkEnd "a" OCanceled]) 0 = Some 13%nat
+  /\ sys_check scfg_fixed hcfg_fixed sys_init (firstn 15 cex_c06_prefix ++ [LWorkEnd "a" ONil]) 0 = Some 15%nat
+  /\ sys_check scfg_fixed hcfg_fixed sys_init (firstn 15 cex_c06_prefix ++ [LWorkEnd "a" OCanceled; LWorkEnd "a" OCanceled]) 0
+     = Some 16%nat.
+Proof. vm_compute. repeat split; reflexivity. Qed.
+
 Print Assumptions C7_step.
 Print Assumptions C06_predicate_at_rest_retried.
 Print Assumptions C06_at_rest_retried.
@@ -684,3 +729,5 @@ Print Assumptions C06_retry_discipline_needed.
 Print Assumptions C06_dump_before_retry_refuted.
 Print Assumptions C06_dump_inside_retry_refuted.
 Print Assumptions ex_c06_retried_report.
+Print Assumptions ex_canceled_before_start_report.
+Print Assumptions canceled_end_needs_accept.
